@@ -6,6 +6,7 @@ import os
 import subprocess
 import sys
 import tempfile
+import types
 
 import numpy as onp
 import z3
@@ -216,6 +217,43 @@ def oracle(kind, x, p, a, B0, B2, c, q=0.0):
     return g, H, {0: dgdp0, 2: dgdp2}
 
 
+class _NPX:
+    """px.NP plus the value predicates a load-step routine may branch on, with NumPy's exact semantics on proxies:
+    allclose(a, b, rtol, atol) = all(|a - b| <= atol + rtol |b|) as a symbolic boolean (a Python `if` on it forks the path)"""
+
+    def __getattr__(self, name):
+        return getattr(NP, name)
+
+    @staticmethod
+    def isclose(a, b, rtol=1e-05, atol=1e-08, equal_nan=False):
+        if not (px._has_sym(a) or px._has_sym(b) or px.is_sym(a) or px.is_sym(b)):
+            return onp.isclose(onp.asarray(a, dtype=float), onp.asarray(b, dtype=float), rtol=rtol, atol=atol, equal_nan=equal_nan)
+        a2, b2 = onp.broadcast_arrays(onp.asarray(a, dtype=object), onp.asarray(b, dtype=object))
+        out = onp.empty(a2.shape, dtype=object)
+        for idx in onp.ndindex(*a2.shape):
+            out[idx] = abs(a2[idx] - b2[idx]) <= atol + rtol * abs(b2[idx])
+        return out
+
+    @staticmethod
+    def allclose(a, b, rtol=1e-05, atol=1e-08, equal_nan=False):
+        r = NPX.isclose(a, b, rtol, atol, equal_nan)
+        if isinstance(r, onp.ndarray) and r.dtype == object:
+            return NP.all(r)
+        return bool(onp.all(r))
+
+    @staticmethod
+    def array_equal(a, b):
+        if not (px._has_sym(a) or px._has_sym(b)):
+            return bool(onp.array_equal(a, b))
+        a2, b2 = onp.asarray(a, dtype=object), onp.asarray(b, dtype=object)
+        if a2.shape != b2.shape:
+            return False
+        return NP.all(onp.array([x_ == y_ for x_, y_ in zip(a2.reshape(-1), b2.reshape(-1))], dtype=object))
+
+
+NPX = _NPX()
+
+
 class LinOpStub:
     """scipy.sparse.linalg.LinearOperator: only (shape, matvec) is used by the code under test"""
 
@@ -247,6 +285,7 @@ def make_ws_harness(index, kind, use_default_index=False):
     def fn(ex):
         O = _objmod()
         mod = px.load_module('optimism/WarmStart.py')
+        mod.np = NPX
         a, B0, B2, c, x, pold, pnew = _draw_ws_inputs(ex, kind)
         t_old, t_new = ex.real('t_old'), ex.real('t_new')
         if kind == 'cubic':
@@ -292,23 +331,31 @@ def make_ws_harness(index, kind, use_default_index=False):
             dx = mod.warm_start_increment(obj, x, p_new, index)
         dp = p_new[index] - p_old[index]
         rhs = -dgdp[index](dp)                       # -(dg/dp_index)(x_old, p_old) (p_new - p_old)
-        ex.goal('rhs_is_minus_dgdp_times_parameter_change', Eq(U(onp.asarray(seen['b'], dtype=object)), U(rhs)),
-                info='right-hand side handed to cg')
         w = ex.vec('probe', N)
-        ex.goal('operator_is_hessian_at_old_state', Eq(U(onp.asarray(seen['Lop'].matvec(w), dtype=object)), U(NP.dot(H, w))),
-                info='operator handed to cg, applied to an arbitrary vector')
-        ex.goal('preconditioner_is_the_objectives', Eq(U(onp.asarray(seen['M'].matvec(w), dtype=object)), U(obj.apply_precond(w))))
-        ex.goal('increment_is_the_linear_predictor', Eq(U(NP.dot(H, dx)), U(rhs)), info='H dx = -(dg/dp) dp for the returned increment')
+        sc_rhs = 1.0 if ex.symbolic else float(onp.max(onp.abs(onp.asarray(rhs, dtype=float)))) + 1e-300
+        if 'b' in seen:
+            ex.goal('rhs_is_minus_dgdp_times_parameter_change', Eq(U(onp.asarray(seen['b'], dtype=object)), U(rhs)),
+                    info='right-hand side handed to cg')
+            ex.goal('operator_is_hessian_at_old_state', Eq(U(onp.asarray(seen['Lop'].matvec(w), dtype=object)), U(NP.dot(H, w))),
+                    info='operator handed to cg, applied to an arbitrary vector')
+            ex.goal('preconditioner_is_the_objectives', Eq(U(onp.asarray(seen['M'].matvec(w), dtype=object)), U(obj.apply_precond(w))))
+        else:
+            # the routine returned without a linear solve: only right when there is nothing to predict
+            ex.goal('no_linear_solve_only_when_the_gradient_change_vanishes', Eq(U(rhs), [0.0] * N, scale=sc_rhs),
+                    info='returned %r without solving although -(dg/dp)(p_new - p_old) != 0' % (dx if not ex.symbolic else 'an increment',))
+        dxa = onp.asarray(dx, dtype=object if ex.symbolic else float)
+        ex.goal('increment_has_the_shape_of_x', Holds(onp.shape(dxa) == onp.shape(x)))
+        ex.goal('increment_is_the_linear_predictor', Eq(U(NP.dot(H, dxa)), U(rhs), scale=sc_rhs), info='H dx = -(dg/dp) dp for the returned increment')
         ex.goal('objective_parameters_untouched', Holds(obj.p is p_old))
         ex.goal('start_point_untouched', Eq(U(x), U(x_in)))
         if kind == 'quadratic':
             # x_old is an equilibrium at the old parameters (by the choice of q) => x_old + dx is one at the new value of slot
             # `index` (the other slots as before); both gradients through the REAL Objective.grad_x
-            sc = onp.max(onp.abs(onp.asarray(seen['b'], dtype=float))) + 1.0 if not ex.symbolic else 1.0
+            sc = onp.max(onp.abs(onp.asarray(rhs, dtype=float))) + 1.0 if not ex.symbolic else 1.0
             g_code_old = obj.grad_x(x, p_old)
             ex.goal('old_state_is_an_equilibrium', Eq(U(onp.asarray(g_code_old, dtype=object)), [0.0] * N, scale=sc))
             p_upd = O.param_index_update(p_old, index, p_new[index])
-            g_new = obj.grad_x(x + dx, p_upd)
+            g_new = obj.grad_x(x + dxa, p_upd)
             ex.goal('lands_on_the_new_solution', Eq(U(onp.asarray(g_new, dtype=object)), [0.0] * N, scale=sc),
                     info='grad f(x_old + dx; p_new) for an equilibrium x_old of a quadratic energy')
     return fn
@@ -816,3 +863,89 @@ def o4(h):
 
 
 DESIGNED_NOT_REGISTERED = []
+
+
+# ------------------------------------------------------------------------------------------ O4 (continued): BoundConstrainedObjective scaling
+def bco_energy(x, p):
+    """general quadratic plus a cubic cross term, n = 3, coefficients traced"""
+    A = jnp.array([[p[0], p[3], p[4]], [p[3], p[1], p[5]], [p[4], p[5], p[2]]])
+    return 0.5 * x @ (A @ x) + p[6:9] @ x + p[9] * x[0] * x[1] * x[2]
+
+
+BCO_IDX = [2, 0]        # constrained dofs, unsorted on purpose
+
+
+@obligation(P, 'O4.bound_constrained_scaling', cap=400)
+def o4_bco(h):
+    """BoundConstrainedObjective built by its REAL constructor with a preconditioner strategy (symbolic positive stiffness
+    diagonal K) and a SYMBOLIC constraintStiffnessScaling s > 0: scaling*invScaling = 1 on every dof (constrained ones included),
+    invScaling*(scaling*x) = x, scaling^2 = K (free dofs) resp. K/s^2 (constrained dofs); get_value(x) is the augmented Lagrangian
+    in ORIGINAL coordinates (f(x) + penalty of the scaled constrained dofs; = f(x) for zero multipliers and feasible x),
+    get_residual(x) = invScaling * grad of that, the multipliers reported are lam*scaling; stationary points map both ways"""
+    from . import c04
+    import optimism.BoundConstrainedObjective as BCO
+    from optimism import ConstrainedObjective as CO
+    h.encoded(BCO.BoundConstrainedObjective.__init__, BCO.BoundConstrainedObjective.get_value, BCO.BoundConstrainedObjective.get_residual,
+              BCO.BoundConstrainedObjective.get_multipliers, CO.ConstrainedObjective.__init__, CO.ConstrainedObjective.create_augmented_lagrangian)
+    h.bounds('n=3 unknowns, constrainedIndices = %s (concrete, unsorted); f = general quadratic + cubic cross term (10 symbolic coefficients); stiffness diagonal K_i > 0, '
+             'constraintStiffnessScaling s > 0 (symbolic, in particular s != 1), start x0, evaluation point x, multipliers lam >= 0: all reals; kappa = 1/4 (the constructor\'s value)' % BCO_IDX)
+    h.assume_note('stub: precondStrategy.precond_at_attempt(0) returns a matrix whose diagonal is the symbolic K; sparse_diags / onp.array inside ScaledPrecondStrategy.__init__ replaced by no-ops '
+                  '(as in C04-O5); the object is constructed with concrete constrainedIndices under jax.ensure_compile_time_eval (c04._build_bco)',
+                  'oracle: augmented Lagrangian penalty written out in the harness (lam >= kappa c: -c lam + kappa c^2/2, else -lam^2/(2 kappa)), grad f by jax autodiff of the unscaled energy')
+    h.outside('the assembled scaled preconditioner matrices (scipy.sparse); upper bounds')
+    jx.OTHER['scatter-mul'] = c04._scatter_mul
+    jx.OTHER['scatter_mul'] = c04._scatter_mul
+    BCO.sparse_diags = lambda *a, **k: None
+    BCO.onp = types.SimpleNamespace(array=lambda a: a)
+    idx = onp.array(BCO_IDX)
+
+    def F(x0, p, Kd, css, x, lam):
+        o = c04._build_bco(BCO, bco_energy, x0, p, idx, constraintStiffnessScaling=css, precondStrategy=c04._StubPrecondStrategy(Kd))
+        out = dict(scaling=o.scaling, inv=o.invScaling, lam0=o.lam, roundtrip=o.invScaling * (o.scaling * x))
+        o.lam = lam
+        out.update(val=o.get_value(x), res=o.get_residual(x), mult=o.get_multipliers(), f=bco_energy(x, p), g=jax.grad(bco_energy)(x, p),
+                   c=o.constraint(o.scaling * x), f0=bco_energy(x0, p), val_at_start=o.value(o.scaling * x0))
+        o.lam = jnp.zeros(2)
+        out.update(val_nolam=o.get_value(x), res_nolam=o.get_residual(x), g_at_unscaled=jax.grad(bco_energy)(o.invScaling * x, p), gbar_nolam=o.gradient(x))
+        return out
+    ex = dict(x0=onp.array([0.1, -0.3, 0.2]), p=onp.array([2.0, 1.5, 3.0, 0.2, -0.1, 0.3, 0.5, -1.0, 0.7, 0.4]), Kd=onp.array([2.0, 1.5, 3.0]), css=0.05, x=onp.array([0.05, 0.2, 0.1]),
+              lam=onp.array([0.3, 0.0]))
+    smp = lambda rng: [rng.normal(size=3), rng.normal(size=10), onp.abs(rng.normal(size=3)) + 0.3, abs(rng.normal()) + 0.3, rng.normal(size=3), onp.abs(rng.normal(size=2))]
+    c = Case(h, F, ex, sampler=smp, label='BoundConstrainedObjective(precondStrategy, constraintStiffnessScaling)')
+
+    def pen(l, cc):
+        k = 0.25
+        return sym.v_if(sym.v_le(v_mul(k, cc), l), sym.v_add(v_mul(-1.0, v_mul(cc, l)), v_mul(0.5 * k, v_mul(cc, cc))), v_mul(-0.5 / k, v_mul(l, l)))
+
+    def dpen(l, cc):
+        k = 0.25
+        return sym.v_if(sym.v_le(v_mul(k, cc), l), sym.v_add(v_mul(-1.0, l), v_mul(k, cc)), 0.0)
+
+    def spec(i, o):
+        Kd, css, x, lam = i['Kd'], s0(i['css']), i['x'], i['lam']
+        asm = [v_lt(0.0, css)] + [v_lt(0.0, Kd[k]) for k in range(3)] + [sym.v_le(0.0, lam[j]) for j in range(2)]
+        sc, inv = o['scaling'], o['inv']
+        cs = [v_mul(sc[k], x[k]) for k in BCO_IDX]                       # the constraint values the class works with: scaled constrained dofs
+        feas = sym.v_and(*[sym.v_le(0.0, x[k]) for k in BCO_IDX])
+        ats = [Eq([v_mul(sc[k], inv[k]) for k in range(3)], [1.0] * 3, name='scaling_times_invScaling_is_one'),
+               Lt([0.0] * 3, list(sc), name='scaling_positive'),
+               Eq(list(o['roundtrip']), list(x), name='unscaling_the_scaled_point_gives_the_point_back'),
+               Eq([v_mul(sc[1], sc[1])], [Kd[1]], name='free_dof_scaling_squared_is_stiffness'),
+               Eq([v_mul(v_mul(sc[k], css), v_mul(sc[k], css)) for k in BCO_IDX], [Kd[k] for k in BCO_IDX], name='constrained_dof_scaling_is_sqrt_stiffness_over_constraintStiffnessScaling'),
+               Eq(list(o['c']), cs, name='constraint_is_the_scaled_constrained_dofs'),
+               Eq(s0(o['val']), sym.v_sum([s0(o['f'])] + [pen(lam[j], cs[j]) for j in range(2)]), name='get_value_is_augmented_lagrangian_at_the_ORIGINAL_point'),
+               Eq(s0(o['val_nolam']), s0(o['f']), when=feas, name='get_value_is_f_for_zero_multipliers_and_feasible_point'),
+               Eq(s0(o['val_at_start']), sym.v_sum([s0(o['f0'])] + [pen(lam[j], v_mul(sc[k], i['x0'][k])) for j, k in enumerate(BCO_IDX)]),
+                  name='scaled_start_point_is_the_original_start'),
+               Eq(list(o['mult']), [v_mul(lam[j], sc[k]) for j, k in enumerate(BCO_IDX)], name='get_multipliers_is_lam_times_scaling')]
+        want = [o['g'][k] for k in range(3)]
+        for j, k in enumerate(BCO_IDX):
+            want[k] = sym.v_add(want[k], v_mul(sc[k], dpen(lam[j], cs[j])))
+        ats.append(Eq(list(o['res']), [v_mul(inv[k], want[k]) for k in range(3)], name='get_residual_is_invScaling_times_gradient_in_original_coordinates'))
+        ats.append(Eq(list(o['res_nolam']), [v_mul(inv[k], o['g'][k]) for k in range(3)], when=feas, name='get_residual_is_invScaling_grad_f_for_zero_multipliers_and_feasible_point'))
+        ats.append(Eq(list(o['g']), [0.0] * 3, when=sym.v_and(feas, *[sym.v_eq(o['res_nolam'][k], 0.0) for k in range(3)]),
+                      name='zero_residual_means_stationary_f_for_zero_multipliers_and_feasible_point'))
+        ats.append(Eq(list(o['g_at_unscaled']), [0.0] * 3, when=sym.v_and(*([sym.v_le(0.0, x[k]) for k in BCO_IDX] + [sym.v_eq(o['gbar_nolam'][k], 0.0) for k in range(3)])),
+                      name='stationary_xBar_maps_to_stationary_invScaling_xBar'))
+        return asm, ats
+    c.prove('bco_scaled', spec, cap=60)
